@@ -732,9 +732,10 @@ def run_shard(shard):
 
     async def main():
         await numeric_top_level_note(env, acc)
-        for _ in range(shard["n"]):
+        for ci in range(shard["n"]):
             typed = rnd.random() < 0.45
-            case = gen_script(rnd, typed, rnd.randint(4, 40))
+            # the first scripts of a shard are short so that the witnesses kept per signature are small
+            case = gen_script(rnd, typed, rnd.randint(1, 5) if ci < 20 else rnd.randint(4, 40))
             acc.case()
             acc.hit("typed_cases" if typed else "dict_cases")
             if is_nontrivial(case):
